@@ -657,7 +657,9 @@ def finish(chk, prop, tier, base_seed, jobs, records, harness_errors, det_checke
 
 
 def write_evidence(prop: str, evidence: dict) -> None:
-    d = os.path.join(VERIF_DIR, 'evidence')
+    # tools that run the checks against a scratch copy with a seeded change (VERIF_REPO=<scratch>) point
+    # this somewhere else, so that /verif/evidence only ever describes runs against /repo itself
+    d = os.environ.get('VERIF_EVIDENCE_DIR') or os.path.join(VERIF_DIR, 'evidence')
     os.makedirs(d, exist_ok=True)
     path = os.path.join(d, f'{prop}.json')
     tmp = path + '.tmp'
